@@ -178,8 +178,27 @@ l.box x:l.List = l.Box;
 """
 
 
+def kernel_accepts(ctx, bins, files):
+    ins, err = dump_ir(bins["verifdump"], files, Path(ctx.scratch) / "probe_ir.json", tl2_whitelist="*")
+    return ins is not None
+
+
+def accepted_random_specs(ctx, n, bins):
+    """n random schemas the kernel accepts (rejected candidates cost one kernel run each)"""
+    good, rejected = [], 0
+    for sp in randschema.make_specs(ctx, 3 * n + 2, tl2=True):
+        if len(good) >= n:
+            break
+        if kernel_accepts(ctx, bins, sp[1]):
+            good.append((f"rs{len(good)}",) + tuple(sp[1:]))
+        else:
+            rejected += 1
+    ctx.notes["random_schemas_rejected_by_kernel"] = ctx.notes.get("random_schemas_rejected_by_kernel", 0) + rejected
+    return good
+
+
 def tl2_units(ctx, n_rand, bins, extra_specs=()):
-    specs = tl2_corpus() + randschema.make_specs(ctx, n_rand, tl2=True) + list(extra_specs)
+    specs = tl2_corpus() + accepted_random_specs(ctx, n_rand, bins) + list(extra_specs)
     units = prepare_units(ctx, specs, bins, driver_files=DRIVER_FILES)
     for u in units:
         if u.ins is not None and u.ir_path is not None:
@@ -444,16 +463,26 @@ def evolve_schema(rng, text):
     return "\n".join(out), changed
 
 
-def evolution_specs(ctx, n):
-    """n (old, new) pairs of random schemas as unit specs named evo<i>_old / evo<i>_new"""
+def evolution_specs(ctx, n, bins=None):
+    """n (old, new) pairs of random schemas as unit specs named evo<i>_old / evo<i>_new
+    (with [bins]: only pairs the kernel accepts)"""
     specs = []
     for i in range(n):
-        for _ in range(20):
+        for _ in range(30):
             g = randschema.Gen(ctx.rng, ntypes=ctx.rng.choice([4, 6, 8]))
             old = g.text()
             new, changed = evolve_schema(ctx.rng, old)
-            if changed:
-                break
+            if not changed:
+                continue
+            if bins is not None:
+                ok = True
+                for text in (old, new):
+                    pth = Path(ctx.scratch) / "probe_evo.tl"
+                    pth.write_text(text)
+                    ok = ok and kernel_accepts(ctx, bins, [pth])
+                if not ok:
+                    continue
+            break
         for tag, text in (("old", old), ("new", new)):
             d = Path(ctx.scratch) / f"evo{i}_{tag}"
             d.mkdir(exist_ok=True)
